@@ -4,8 +4,10 @@ package main
 // specification written directly in Go (oracle).
 
 import (
+	"bytes"
 	"encoding/json"
 	"fmt"
+	"gopkg.in/yaml.v3"
 	"sort"
 
 	pipeline "github.com/buildkite/go-pipeline"
@@ -219,6 +221,72 @@ func c11Check(c *ctx, sess *core.Session, m c11Matrix, perms []map[string]string
 	}
 }
 
+// c11TextRoute: the same matrix written as a document and read by the real parser (the way matrices reach
+// the validator in use), judged against the same specification.
+func c11TextRoute(c *ctx, m c11Matrix, perms []map[string]string) {
+	setup := map[string]any{}
+	for k, v := range m.setup {
+		if v == nil {
+			setup[k] = nil
+		} else {
+			setup[k] = v
+		}
+	}
+	var adjs []any
+	for _, a := range m.adjs {
+		if a.isNil {
+			adjs = append(adjs, nil)
+			continue
+		}
+		am := map[string]any{"with": a.with}
+		if a.skip != nil {
+			am["skip"] = a.skip
+		}
+		adjs = append(adjs, am)
+	}
+	mm := map[string]any{"setup": setup}
+	if adjs != nil {
+		mm["adjustments"] = adjs
+	}
+	src, err := yaml.Marshal(map[string]any{"steps": []any{map[string]any{"command": "x", "matrix": mm}}})
+	if err != nil {
+		return
+	}
+	p, perr := pipeline.Parse(bytes.NewReader(src))
+	if p == nil || perr != nil || len(p.Steps) != 1 {
+		c.res.Hist("text-route.not-parsed")
+		return
+	}
+	cs, ok := p.Steps[0].(*pipeline.CommandStep)
+	if !ok || cs.Matrix == nil {
+		c.res.Hist("text-route.not-a-command-step")
+		return
+	}
+	// what the document says, as the specification reads it: an empty `with` mapping is an adjustment
+	// without values; an empty setup is no dimension
+	for _, perm := range perms {
+		var got string
+		if pn, msg := guard(func() {
+			if err := cs.Matrix.VerifValidatePermutation(pipeline.MatrixPermutation(perm)); err == nil {
+				got = "accept"
+			} else {
+				got = "reject"
+			}
+		}); pn {
+			got = "panic:" + msg
+		}
+		want := "reject"
+		if c11Spec(m, perm) {
+			want = "accept"
+		}
+		c.res.OracleChecks++
+		if got != want {
+			c.res.Fail(core.OracleFailure{What: "validatePermutation on the parsed document differs from the matrix specification", Input: map[string]any{"document": string(src), "permutation": perm}, Got: got, Want: want})
+		}
+	}
+	c.res.Hist("text-route")
+}
+
 func runC11(c *ctx) error {
 	const nShard = 12
 	var shards []*core.Session
@@ -324,7 +392,14 @@ func runC11(c *ctx) error {
 		nr = 30000
 	}
 	names3 := []string{"os", "arch", "ver", "", "zz"}
+	exhaustiveVals := vals
 	for i := 0; i < nr; i++ {
+		// one random matrix in three draws its values from a pool with separators inside the values
+		// (a tuple is a tuple of values, however they are spelled)
+		vals := exhaustiveVals
+		if i%3 == 0 {
+			vals = []string{"x,y", "z", "x", "y,z", ",", "a", "x y", "y", "x|y"}
+		}
 		nd := 1 + rng.Intn(3)
 		setup := map[string][]string{}
 		for len(setup) < nd {
@@ -373,7 +448,24 @@ func runC11(c *ctx) error {
 				ps = append(ps, a.with)
 			}
 		}
+		if i%10 == 5 {
+			// boundary shift: two tuples whose values concatenate to the same text with any one-character
+			// separator; one is an adjustment (skipped or not), the other a setup combination or nothing
+			sep := core.Pick(rng, []string{",", "|", " ", "/", ":"})
+			d1, d2 := "arch", "os"
+			setup = map[string][]string{d1: {"x" + sep + "y", "x"}, d2: {"z", "y" + sep + "z"}}
+			if rng.Bool() {
+				setup[d2] = []string{"z"} // then (x, y<sep>z) is not a setup combination at all
+			}
+			adjs = []c11Adj{{with: map[string]string{d1: "x" + sep + "y", d2: "z"}, skip: core.Pick(rng, skips)}}
+			if rng.Bool() {
+				adjs = append(adjs, c11Adj{with: map[string]string{d1: "x", d2: "y" + sep + "z"}, skip: core.Pick(rng, skips)})
+			}
+			ps = []map[string]string{{d1: "x", d2: "y" + sep + "z"}, {d1: "x" + sep + "y", d2: "z"}, {d1: "x", d2: "z"}, {d1: "x" + sep + "y", d2: "y" + sep + "z"}}
+			c.res.Hist("random-matrix.boundary-shift")
+		}
 		c11Check(c, shards[i%nShard], c11Matrix{setup: setup, adjs: adjs}, ps, false)
+		c11TextRoute(c, c11Matrix{setup: setup, adjs: adjs}, ps)
 		c.res.Hist("random-matrix")
 	}
 	c.res.Exhaustive = true
